@@ -73,10 +73,30 @@ func ruleEntryWiring(c *Ctx) {
 		}
 		return nil
 	}
-	entries := c.entryPoints()
-	entries = append(entries, c.funcObj("resolveAnyWithBase"))
+	entrySet := map[*types.Func]bool{}
+	for _, f := range c.entryPoints() {
+		entrySet[f] = true
+	}
+	var entries []*types.Func
+	for _, f := range c.pkgFuncs() {
+		sig := f.Type().(*types.Signature)
+		if sig.Recv() != nil {
+			continue // loader methods (transitiveResolver) are covered by loader-shares-state
+		}
+		if entrySet[f] {
+			entries = append(entries, f)
+			continue
+		}
+		for _, g := range c.staticCallees(f) {
+			if g == factory {
+				entries = append(entries, f)
+			}
+		}
+	}
+	type provider struct{ loaderIdx, baseIdx int }
+	providers := map[*types.Func]provider{}
 	for _, f := range entries {
-		if f == nil {
+		if f == nil || f == factory {
 			continue
 		}
 		fd := c.decl(f)
@@ -187,7 +207,40 @@ func ruleEntryWiring(c *Ctx) {
 				break
 			}
 		}
-		c.ob(rule, fn+":base-is-options-base", fcall.Pos(), baseOK && nfam > 0, "the base path given to the expander must be the RelativeBase of the options the loader was built with")
+		if nfam == 0 {
+			// a helper that builds the loader and hands it back together with the base path
+			sig := f.Type().(*types.Signature)
+			li, bi := -1, -1
+			for i := 0; i < sig.Results().Len(); i++ {
+				if isNamed(sig.Results().At(i).Type(), c.Types, fam.loader.Obj().Name()) {
+					li = i
+				}
+				if isStringType(sig.Results().At(i).Type()) {
+					bi = i
+				}
+			}
+			if li >= 0 && bi >= 0 {
+				okRet, nret := true, 0
+				ast.Inspect(fd.Body, func(n ast.Node) bool {
+					rs, ok := n.(*ast.ReturnStmt)
+					if !ok || len(rs.Results) != sig.Results().Len() {
+						return true
+					}
+					nret++
+					p, ok := c.apath(rs.Results[bi])
+					if !ok || optID == nil || p.Root != c.objOf(optID) || lastStep(p) != "RelativeBase" || rs.Pos() < fcall.Pos() {
+						okRet = false
+					}
+					return true
+				})
+				c.ob(rule, fn+":base-is-options-base", fcall.Pos(), okRet && nret > 0, "the base path handed back with the loader must be the RelativeBase of the options the loader was built with, read after the loader factory ran")
+				providers[f] = provider{li, bi}
+			} else {
+				c.ob(rule, fn+":base-is-options-base", fcall.Pos(), false, "a loader is built but neither used for an expansion here nor handed back with its base path")
+			}
+		} else {
+			c.ob(rule, fn+":base-is-options-base", fcall.Pos(), baseOK && nfam > 0, "the base path given to the expander must be the RelativeBase of the options the loader was built with")
+		}
 		// the loader handed to the family is the one just built
 		if pseudoCall != nil {
 			// root registered in the cache the loader receives
@@ -209,6 +262,66 @@ func ruleEntryWiring(c *Ctx) {
 			c.ob(rule, fn+":same-root", pseudoCall.Pos(), r1 != nil && r2 != nil && c.objOf(r1) == c.objOf(r2), "the root registered under the pseudo location and the root given to the loader differ")
 		}
 	}
+	pm := map[*types.Func][2]int{}
+	for g, p := range providers {
+		pm[g] = [2]int{p.loaderIdx, p.baseIdx}
+	}
+	if len(pm) > 0 {
+		for f := range entrySet {
+			c.entryUsesProvider(rule, fam, f, pm)
+		}
+	}
+}
+
+// entryUsesProvider checks an entry point that obtains (loader, base) from a provider helper.
+func (c *Ctx) entryUsesProvider(rule string, fam *expFamily, f *types.Func, providers map[*types.Func][2]int) {
+	fd := c.decl(f)
+	if fd == nil || fd.Body == nil {
+		return
+	}
+	var lv, bv types.Object
+	var pcall *ast.CallExpr
+	ast.Inspect(fd.Body, func(n ast.Node) bool {
+		as, ok := n.(*ast.AssignStmt)
+		if !ok || len(as.Rhs) != 1 {
+			return true
+		}
+		call, ok := unparen(as.Rhs[0]).(*ast.CallExpr)
+		if !ok {
+			return true
+		}
+		g, ok := c.callee(call).(*types.Func)
+		if !ok {
+			return true
+		}
+		idx, isP := providers[g]
+		if !isP || len(as.Lhs) <= idx[0] || len(as.Lhs) <= idx[1] {
+			return true
+		}
+		pcall = call
+		if id, ok := as.Lhs[idx[0]].(*ast.Ident); ok {
+			lv = c.objOf(id)
+		}
+		if id, ok := as.Lhs[idx[1]].(*ast.Ident); ok {
+			bv = c.objOf(id)
+		}
+		return true
+	})
+	if pcall == nil {
+		return
+	}
+	fn := c.funcName(fd)
+	c.saw(fn)
+	ok, n := true, 0
+	for _, call := range c.familyCalls(fam, fd) {
+		n++
+		b, _ := unparen(c.baseArgOf(call)).(*ast.Ident)
+		l, _ := unparen(c.loaderArgOf(fam, call)).(*ast.Ident)
+		if b == nil || l == nil || c.objOf(b) != bv || c.objOf(l) != lv {
+			ok = false
+		}
+	}
+	c.ob(rule, fn+":base-is-options-base", pcall.Pos(), ok && n > 0, "the expansion must run with the loader and the base path handed back together by the loader-building helper")
 }
 
 func isCallToNode(c *Ctx, n ast.Node, f *types.Func) *ast.CallExpr {
